@@ -66,7 +66,7 @@ var plans = map[string]Plan{
 		},
 		Units: []Unit{
 			{Name: "small", Pkg: "./checks/c02", Run: "^TestSmallExhaustive$", Shards: [2]int{1, 1}},
-			{Name: "random", Pkg: "./checks/c02", Run: "^TestRandom$", Rapid: true, Shards: [2]int{8, 16}, Checks: [2]int{4000, 40000}},
+			{Name: "random", Pkg: "./checks/c02", Run: "^TestRandom$", Rapid: true, Shards: [2]int{8, 16}, Checks: [2]int{4000, 12000}},
 		},
 	},
 	"C03": {
